@@ -591,13 +591,16 @@ func runChain(c fw.Case, p params, rec *fw.Recorder) {
 			// (B) pooled => the mixed run must be what the honest validators alone would get
 			dHM := diffRuns(H, M, nh, false)
 			vB := pooled && len(dHM) > 0
+			// (D) the votes sit on separate records, yet the block's outcome is not the one the
+			// honest 90 % alone get: a vote of 10 % of the power cannot carry anything by itself, so
+			// honest votes were counted towards (or lost to) the other claim when the records were
+			// tallied. (Attestation records and the byzantine voter's own bookkeeping are masked.)
+			vD := !pooled && byzVote.Accepted && len(dHM) > 0
 			if len(dHM) > 0 && !pooled {
-				// outside the statement (no pooling took place); kept visible in the evidence
 				rec.Count("chain_unpooled_run_differs/"+tn+"/"+fi.Proto, 1)
-				if rec.Get("chain_unpooled_sampled") == 0 {
-					rec.Count("chain_unpooled_sampled", 1)
-					rec.Sample(map[string]any{"note": "mixed run differs from honest run although the votes were NOT pooled", "w": witness("none", dHM)})
-				}
+			}
+			if !pooled && byzVote.Accepted && len(dHM) == 0 {
+				rec.Count("chain_separate_records_outcome_as_honest", 1)
 			}
 			// (C) both individually tallied under one key => same effect
 			sAccepted := len(S.Votes) > 0
@@ -634,6 +637,11 @@ func runChain(c fw.Case, p params, rec *fw.Recorder) {
 					fmt.Sprintf("%s: claims with %s=%s and %s=%s are both accepted under the same attestation key but applying them differs: %s",
 						tn, fi.Proto, fieldString(X, fi), fi.Proto, fieldString(X2, fi), strings.Join(head(dHS, 3), "; ")),
 					witness("same-key-same-effect", dHS)})
+			case vD:
+				pend = append(pend, pending{1, "tally-pooled/" + shortName(p.Type) + "/" + fi.Proto,
+					fmt.Sprintf("%s: the byzantine first vote (10%% power, %s=%s) is stored on its own attestation record, the honest votes (90%%, %s=%s) on theirs, yet the block's outcome is not what the honest validators alone get: %s",
+						tn, fi.Proto, fieldString(X2, fi), fi.Proto, fieldString(X, fi), strings.Join(head(dHM, 3), "; ")),
+					witness("separate-records-mixed-run-equals-honest-run", dHM)})
 			case vA:
 				pend = append(pend, pending{2, sig(p.Type, fi.Proto),
 					fmt.Sprintf("%s: a vote for a claim that differs in %s (%s: %s instead of %s) is stored in the same attestation record as the honest claim (store key %s)",
@@ -890,7 +898,7 @@ func init() {
 		Exhaustive:  func(string) bool { return false },
 		Cases:       cases,
 		Run:         run,
-		MinCounters: []string{"pure_types", "pure_listed_key_differs", "chain_worlds", "key_model_checked", "abci_crosscheck_ok", "chain_xprime_vote_accepted", "chain_late_vote_accepted", "chain_late_identical_vote_accepted", "chain_genesis_roundtrips", "chain_genesis_competitors_kept_apart", "chain_genesis_roundtrips_after_observation", "chain_base_applied/MsgSendToPalomaClaim", "chain_base_applied/MsgBatchSendToRemoteClaim", "chain_base_applied/MsgLightNodeSaleClaim"},
+		MinCounters: []string{"pure_types", "pure_listed_key_differs", "chain_worlds", "key_model_checked", "abci_crosscheck_ok", "chain_xprime_vote_accepted", "chain_separate_records_outcome_as_honest", "chain_late_vote_accepted", "chain_late_identical_vote_accepted", "chain_genesis_roundtrips", "chain_genesis_competitors_kept_apart", "chain_genesis_roundtrips_after_observation", "chain_base_applied/MsgSendToPalomaClaim", "chain_base_applied/MsgBatchSendToRemoteClaim", "chain_base_applied/MsgLightNodeSaleClaim"},
 		TimeoutS:    1500,
 	})
 }
